@@ -98,18 +98,21 @@ Fixpoint consistent_from (nrep : N) (last : option (option N)) (h : list wmsg) :
       end
   end.
 
+(* the bus driver emits NameOwnerChanged from its own object /org/freedesktop/DBus only — never from the proxied
+   object.  (Only matters for a proxy whose own interface is org.freedesktop.DBus: otherwise no wanted signal has
+   the NameOwnerChanged shape and the condition holds for every history.) *)
+Definition driver_claim_off_path (cf : cfg) (m : wmsg) : bool :=
+  match m with
+  | WSig s => wanted cf s && is_noc s && opt_eqb (s_sender s) (Some DRIVER)
+  | WRep _ => false
+  end.
+
 Definition bus_history (cf : cfg) (h : list wmsg) : bool :=
-  stamped h &&
+  stamped h && negb (existsb (driver_claim_off_path cf) h) &&
   match c_dest cf with
   | DUnique _ => true
   | DWell => owners_ok_from 0 h && consistent_from 0 None h
   end.
-
-(* ---------------------------------------------------------------- known deviation classes *)
-(* dbus_iface_forgery: the proxy's own interface is org.freedesktop.DBus and the stream accepts the member
-   NameOwnerChanged, so a peer's signal on the proxy's path is both "wanted" and read as an ownership claim *)
-Definition forgeable (cf : cfg) (h : list wmsg) : bool :=
-  existsb (fun m => match m with WSig s => wanted cf s && is_noc s | WRep _ => false end) h.
 
 (* ---------------------------------------------------------------- forged ownership claims *)
 (* a NameOwnerChanged-shaped signal that does not carry the bus driver's sender *)
@@ -136,9 +139,3 @@ Definition drained (w : world) : Prop :=
   | _ => False
   end.
 
-(* the run falls in a known deviation class:
-   release_buffered   — SignalStream::new found a NameOwnerChanged *without new owner* buffered in its join
-                        when the lookup answer arrived, and dropped it (the flag w_lost of the model);
-   dbus_iface_forgery — [forgeable] above *)
-Definition Known_C32 (cf : cfg) (h : list wmsg) (sched : list action) : Prop :=
-  w_lost (run cf h sched) = true \/ forgeable cf h = true.
